@@ -40,10 +40,8 @@ UNPROVED = [
     "DOK: a non-empty key of index sequences that does not name every axis raises NotImplementedError (clause "
     "dok_array_key_not_for_every_axis, refuted in Props: dok_partial_array_key_refuted); dok_fancy_getitem_den_partial covers "
     "integer sequences only (a key of per-axis boolean masks goes the same way through _fancy_key, tested, not stated)",
-    "index arrays are modelled as lists of integers: their dtype is not (finding narrow_dtype_index_array_overflow: "
-    "posify_index adds the extent in the array's own dtype; found by directed cases, no model)",
-    "GCXS getitem with None and fewer than two surviving axes, or None after an integer: false of the code (D22/D27/D28, "
-    "refuted in Props); every other None position is proved (gcxs_getitem_den_partial / gcxs_getitem_wf_partial)",
+    "index arrays are modelled as lists of integers, their dtype is not modelled (narrow-dtype arrays on long axes are "
+    "campaign cases only; the former finding narrow_dtype_index_array_overflow is repaired by 5e6e40f)",
     "the GCXS theorems assume strictly increasing compressed axes (GCXS.__init__ -> check_compressed_axes enforces it; "
     "c05's gcxs_wfb does not record it, so it is a separate hypothesis) and, for ndim = 1, empty compressed_axes/indptr fields",
     "normalize_index idempotence: proved per slice entry when the normalised stop is >= 0 (slice_norm_idempotent_partial), "
